@@ -189,7 +189,7 @@ func ensureBuild(variant string) (string, error) {
 	vinstr := filepath.Join(cache, "bin", "vinstr")
 	// 1. pre-overlay: runtime library + in-package harness files
 	pre := map[string]string{}
-	for _, lib := range []string{"simrt", "simnet", "simcluster", "simfab", "simglue"} {
+	for _, lib := range []string{"simrt", "simnet", "simcluster", "simfab", "simglue", "simstream"} {
 		ents, _ := os.ReadDir(filepath.Join(root, lib))
 		for _, e := range ents {
 			if strings.HasSuffix(e.Name(), ".go") && !strings.HasSuffix(e.Name(), "_test.go") {
